@@ -1,6 +1,7 @@
 package c08
 
 import (
+	"time"
 	"fmt"
 	"os"
 	"path/filepath"
@@ -264,6 +265,35 @@ func mkCheck(col *ev.Collector) func(Case) error {
 	}
 }
 
+// GCase: a run of one unit repeated, scanned with one option set.
+type GCase struct {
+	Unit string `json:"unit"`
+	Opt  int    `json:"opt"`
+}
+
+func checkGrowth(g GCase) error {
+	timeOf := func(n int) time.Duration {
+		best := time.Duration(1 << 62)
+		for try := 0; try < 2; try++ {
+			start := time.Now()
+			scan(g.Opt, strings.Repeat(g.Unit, n))
+			if d := time.Since(start); d < best {
+				best = d
+			}
+		}
+		return best
+	}
+	small, large := timeOf(10), timeOf(22)
+	floor := small
+	if floor < 200*time.Microsecond {
+		floor = 200 * time.Microsecond
+	}
+	if large > 1500*time.Millisecond && large > 300*floor {
+		return fmt.Errorf("%s: scanning %q repeated 22 times takes %v, repeated 10 times %v: the running time explodes with the number of unterminated BEGIN words (does not terminate in practice for a few dozen)", OptNames[g.Opt], g.Unit, large, small)
+	}
+	return nil
+}
+
 func mk(src string, opt int) Case { return Case{Src: []byte(src), Opt: opt, Text: fmt.Sprintf("%q", src)} }
 
 func TestCheck(t *testing.T) {
@@ -273,6 +303,21 @@ func TestCheck(t *testing.T) {
 	for _, src := range corpus() {
 		for opt := 0; opt < 4; opt++ {
 			if !ev.Each(col, "corpus", mk(src, opt), check, known) {
+				return
+			}
+		}
+	}
+	// "terminates": the time to scan a run of unterminated BEGIN words must not explode with its length. The scanner is
+	// timed on 10 and on 22 repetitions; a 22-run that takes seconds AND hundreds of times the 10-run is reported
+	// (doubling per extra word gives a factor of 4096; a linear or quadratic scanner stays below 10).
+	for _, unit := range []string{"BEGIN ", "BEGIN x; ", "begin\n"} {
+		for opt := 1; opt < 4; opt++ {
+			g := GCase{Unit: unit, Opt: opt}
+			if !ev.Each(col, "nesting-growth", g, func(g GCase) error {
+				col.Class(OptNames[g.Opt] + "/nesting-growth")
+				col.NonTrivial(fmt.Sprintf("growth|%s|%q", OptNames[g.Opt], g.Unit))
+				return checkGrowth(g)
+			}, ev.Matcher[GCase]{}) {
 				return
 			}
 		}
@@ -290,6 +335,10 @@ func TestCheck(t *testing.T) {
 }
 
 func TestReplay(t *testing.T) {
+	if strings.HasPrefix(ev.ReplaySub(), "nesting") {
+		ev.ReplayFile(t, "C08", func(_ string, g GCase) error { return checkGrowth(g) })
+		return
+	}
 	ev.ReplayFile(t, "C08", func(_ string, c Case) error { _, err := checkCase(c); return err })
 }
 
